@@ -433,6 +433,59 @@ def rational_unifiable(s, t):
     return True
 
 
+def first_obstacle(s, t):
+    """Robinson unification, equations taken left to right depth first (the order of ModelUnify.inner): returns
+    None (unifiable), 'occurs' or 'clash' = the first obstacle met.  Only used to *name* a disagreement class
+    ("the unification runs into the occurs check before any clash"), never as the judge."""
+    fresh = [0]
+
+    def deanon(u):
+        if u[0] == '_':
+            fresh[0] += 1
+            return ('v', ('anon', fresh[0]))
+        if u[0] == 'c':
+            return ('c', u[1], tuple(deanon(a) for a in u[2]))
+        return u[:3]
+
+    def sub(u, x, r):
+        if u[0] == 'v':
+            return r if u[1] == x else u
+        if u[0] == 'c':
+            return ('c', u[1], tuple(sub(a, x, r) for a in u[2]))
+        return u
+
+    def occ(x, u):
+        if u[0] == 'v':
+            return u[1] == x
+        return u[0] == 'c' and any(occ(x, a) for a in u[2])
+    todo = [(deanon(strip_quote(s)), deanon(strip_quote(t)))]
+    while todo:
+        a, b = todo.pop(0)
+        if a == b:
+            continue
+        if b[0] == 'v' and a[0] != 'v':
+            a, b = b, a
+        if a[0] == 'v':
+            if occ(a[1], b):
+                return 'occurs'
+            todo = [(sub(l, a[1], b), sub(r, a[1], b)) for l, r in todo]
+            continue
+        if a[0] != b[0] or (a[0] == 'k' and a != b):
+            return 'clash'
+        if a[0] == 'c':
+            if a[1] != b[1] or len(a[2]) != len(b[2]):
+                return 'clash'
+            todo = list(zip(a[2], b[2])) + todo
+    return None
+
+
+def occurs_check_case(s, t):
+    """The pair has no unifier and the occurs check is what stands in the way: either it is the only obstacle (the pair
+    unifies over rational trees) or it is the first obstacle Robinson's algorithm meets (a clash further on may depend
+    on the cyclic binding)."""
+    return rational_unifiable(s, t) or first_obstacle(s, t) == 'occurs'
+
+
 def has_quoted(t):
     if t[0] == 'k':
         return len(t) > 3 and t[3]
@@ -513,8 +566,8 @@ def repeated_var(t):
 def classify(mode, s, t, expected, observed):
     """Narrow class (input features + symptom) of a disagreement, or None.
     Classes:
-      <door>-indirect-occurs-check-missed   no unifier, the only obstacle is the occurs check (the pair unifies over
-                                            rational trees); symptom: = / head call succeeds, \\= fails
+      <door>-indirect-occurs-check-missed   no unifier, and the occurs check is the only obstacle (the pair unifies over
+                                            rational trees) or the first one Robinson's algorithm meets; symptom: = / head call succeeds, \\= fails
       <door>-bindings-not-propagated        goal with a repeated variable; unifiable; symptom: exactly one answer that is strictly
                                             more general than the mgu instance (eq/head: goal asked at top level through
                                             engine.query; body: `w(Vars) :- S = T`, sharing between returned bindings is lost)
@@ -528,7 +581,7 @@ def classify(mode, s, t, expected, observed):
     t_cls = rename_apart(t) if door == 'head' else t
     if observed[0] == 'err':
         unif = (expected is False) if mode == 'neq' else (expected is not None)
-        if observed[1] in ('INTERNAL:RecursionError', 'Timeout') and not unif and rational_unifiable(s, t_cls):
+        if observed[1] in ('INTERNAL:RecursionError', 'Timeout') and not unif and occurs_check_case(s, t_cls):
             # e.g. Y = f(X), X = f(Y): unify_value follows the cyclic bindings for ever
             return "indirect-occurs-check-unbounded-recursion"
         return None
@@ -543,6 +596,8 @@ def classify(mode, s, t, expected, observed):
         if (quoted_numeric(s) or quoted_numeric(t)) and \
                 rational_unifiable(numeric_atoms_as_numbers(s), numeric_atoms_as_numbers(t_cls)):
             return "quoted-numeric-atom-equals-number"
+        if first_obstacle(s, t_cls) == 'occurs':
+            return "%s-indirect-occurs-check-missed" % door
         return None
     if mode == 'neq':
         return None
